@@ -15,6 +15,8 @@ def run(ctx):
     dyncnf.rule_dynamic_clause_templates(ctx)
     dyncnf.rule_dynamic_variable_registration(ctx)
     dynatt.rule_attack_assumption_templates(ctx)
+    dynalloc.rule_id_indexed_vectors(ctx)
+    dyn.rule_cached_witness_consistent(ctx)
     ctx.assume("rustc's MIR and resolved callees; Vec/Cell/Rc/RefCell std semantics")
     return (
         "F5 on the event-log scans (update variants are barriers), F2 on logging/replay/cursor, allocator-discipline analysis of the SAT variables "
